@@ -10,6 +10,8 @@ FNS = {}
 
 
 LAST_STMT = ['']
+class ReachablePanic(Exception):
+    """a call of core::panicking::* that the executed path reaches"""
 SELF_TYPES = []
 MIR_OPS = set('Not Neg Add Sub Mul Div Rem BitAnd BitOr BitXor Shl Shr Eq Ne Lt Le Gt Ge Cmp Offset PtrMetadata Len AddWithOverflow SubWithOverflow MulWithOverflow AddUnchecked SubUnchecked MulUnchecked ShlUnchecked ShrUnchecked UbChecks NullOp SizeOf AlignOf CopyForDeref ShallowInitBox'.split())
 SIMPLE_CONSTS = {}
@@ -789,13 +791,15 @@ def call(fr, callee, args, ctx):
         target = _d(clo)
         return run_fn(closure_name(target), [clo] + list(tup.f), ctx)
     # ---- generic Option / Result vocabulary (by definition of the std methods)
-    mo = re.match(r'(?:std::option::)?Option::<.*>::(copied|cloned|as_ref|as_deref|take|unwrap|expect|unwrap_or|unwrap_or_default|or|ok_or|is_some_and|map_or|unwrap_or_else|and_then|map|filter|or_else|ok_or_else)(?:::<.*>)?$', c)
+    mo = re.match(r'(?:std::option::)?Option::<.*>::(copied|cloned|as_ref|as_deref|take|unwrap|expect|unwrap_or|unwrap_or_default|or|ok_or|is_some_and|map_or|unwrap_or_else|and_then|map|filter|or_else|ok_or_else|is_some|is_none)(?:::<.*>)?$', c)
     if mo and isinstance(args[0].get() if isinstance(args[0], Ref) else args[0], Enum):
         meth = mo.group(1)
         o = args[0].get() if isinstance(args[0], Ref) else args[0]
         some = option_is_some(o, ctx)
         def callc(clo, *a):
             return run_fn(closure_name(clo), [clo] + list(a), ctx)
+        if meth == 'is_some': return some
+        if meth == 'is_none': return not some
         if meth in ('copied', 'cloned', 'as_deref'):
             if not some: return Enum('None', [])
             v = o.f[0]
@@ -1150,7 +1154,7 @@ def run_fn(name, args, ctx, depth=0):
     CURRENT_FN.append(FNS[name])
     try:
         return run_fn_(name, args, ctx, depth)
-    except Fork:
+    except (Fork, ReachablePanic):
         raise
     except Exception as ex:
         if os.environ.get('MDEBUG') and not getattr(ex, '_shown', False):
@@ -1194,6 +1198,9 @@ def run_fn_(name, args, ctx, depth=0):
                 else: val = v
                 nxt = next((t for k, t in targets if k != 'otherwise' and int(k) == val), None) or dict(targets)['otherwise']
                 break
+            mp = re.search(r'= (?:core|std)::panicking::(\w+)(?:::<.*?>)?\((.*)\) -> (?:unwind|bb\d+)', st)
+            if mp and '[return' not in st:
+                raise ReachablePanic('%s(%s)' % (mp.group(1), mp.group(2)[:120]))
             m = parse_call(st)
             if m:
                 dst, callee, argtxt, nxt = m
